@@ -10,7 +10,7 @@ import json, os, re, shutil, subprocess, sys, tempfile, time, hashlib
 VERIF = os.environ.get("VERIF_ROOT", "/verif")
 REPO = os.environ.get("VERIF_REPO", "/repo")
 SPEC = os.path.join(VERIF, "spec")
-EVID = os.path.join(VERIF, "evidence")
+EVID = os.environ.get("VERIF_EVIDENCE_DIR") or os.path.join(VERIF, "evidence")  # (seed runs keep the committed evidence untouched)
 REPLAY = os.path.join(EVID, "replay")
 TMPBASE = os.environ.get("VERIF_TMP", "/var/tmp")
 GOENV = dict(GOFLAGS="-mod=mod", GOPROXY="off", GOSUMDB="off", GOTOOLCHAIN="local")
